@@ -40,7 +40,95 @@ def falsify(ctx, cfg, rows, init, ops, meta) -> bool:
     return False
 
 
+# ---- clause 2: readings on the retained candles equal those of an untrimmed run ----
+def lookback_candles(spec: Dict) -> int:
+    """How many candles before the new one the indicator may look at (over-estimated)."""
+    kw = spec["kw"]
+    k = spec["kind"]
+    p = kw.get("period", 2)
+    if k == "MACD":
+        return kw["slow_period"] + kw["signal_period"] + 4
+    if k == "STOCH":
+        return p + kw["slow_period"] + kw["smoothing_k"] + 4
+    if k == "TSI":
+        return p + (kw.get("smooth_period") or p) + 4
+    if k == "ADX":
+        return p + (kw.get("period_signal") or p) + 4
+    if k == "HMA":
+        return 2 * p + 4
+    if k == "AMORPH":
+        a = spec["analysis"]
+        return max(a.get("length", 1), a.get("lookback") or 1, 12) + 4
+    return p + 4
+
+
+def falsify_readings(ctx, case: Dict) -> bool:
+    from .. import engprop as E
+    from .. import indicators as X
+    spec, rows, init, chunks, cfg = case["spec"], case["rows"], case["init"], case["chunks"], case["cfg"]
+    bad = None
+    try:
+        with core.time_limit(40):
+            trimmed = X.build(spec, X.mk_rows(init), cfg)
+            trimmed.calculate()
+            twin = X.build(spec, X.mk_rows(init), {k: v for k, v in cfg.items() if k != "lifespan"})
+            twin.calculate()
+            for ch in chunks:
+                trimmed.append(X.mk_rows(ch))
+                twin.append(X.mk_rows(ch))
+                a, b = E.snapshot(trimmed), E.snapshot(twin)
+                if E.same_snapshot(a, b[len(b) - len(a):]) is not None:
+                    d = E.same_snapshot(a, b[len(b) - len(a):])
+                    bad = {"relation": "readings-differ-from-untrimmed-run", "what": d[1]}
+                    break
+    except Exception as e:  # noqa
+        bad = {"relation": "raises", "exc": type(e).__name__}
+    if bad:
+        ctx.fail({"kind": spec["kind"], **bad}, f"{spec} cfg={cfg} n={len(rows)} init={len(init)}: {bad}",
+                 {"mode": "readings", "case": case}, size=len(rows))
+        return True
+    return False
+
+
+def run_readings(ctx: core.Ctx):
+    """Every kind, single-candle appends from a warm start, lifespan that always keeps the look-back."""
+    from .. import engprop as E
+    from .. import indicators as X
+    rng = ctx.rng("readings")
+    corr = E.Corr(ctx, "C15")
+    dist: Dict[str, int] = {}
+    for _ in range(ctx.n(150, 1800)):
+        kind = rng.choice(X.KINDS)
+        spec = X.gen_spec(rng, kind, ctx.thorough, inputs=("close", "high"))
+        if spec["kind"] == "COUNTER":
+            spec["kw"]["input_value"] = "positive"
+        if spec["kind"] == "AMORPH":
+            a = spec["analysis"]
+            for key in ("a", "b", "name"):
+                if a.get(key) in ("a", "b"):
+                    a[key] = "close" if key != "b" else "open"
+        step = rng.choice([60, 300])
+        w = lookback_candles(spec) + rng.randint(2, 12)
+        n = w + rng.randint(5, 60)
+        rows = X.gen_rows(rng, n, late=0, step=step)
+        for r in rows:
+            r["inds"] = {}
+        k = rng.randint(0, w)                # nothing is trimmed before it was calculated: each reading is
+                                             # computed while its whole look-back is still retained
+        cfg = {"lifespan": w * step}
+        chunks = [[r] for r in rows[k:]]
+        c = {"spec": spec, "rows": rows, "init": rows[:k], "chunks": chunks, "cfg": cfg}
+        ctx.count("eval_falsifier")
+        falsify_readings(ctx, c)
+        corr.add(spec, cfg, rows[:k], [("calculate",)] + [("append", ch) for ch in chunks[:w + 6]], rng, {"kind": kind})
+        dist["readings:" + kind] = dist.get("readings:" + kind, 0) + 1
+        ctx.seen({"spec": spec, "cfg": cfg, "rows": rows, "init": k}, True)
+    corr.run()
+    ctx.coverage["readings_distribution"] = dist
+
+
 def run(ctx: core.Ctx) -> int:
+    run_readings(ctx)
     return mgrprop.run_property(
         ctx, "C15", cfg_fn, falsify, 220, 2500,
         nontrivial=lambda cfg, rows, states: bool(states) and len(rows) >= 4 and 0 < len(states[-1]),
@@ -49,6 +137,10 @@ def run(ctx: core.Ctx) -> int:
 
 def replay(ctx: core.Ctx, rep: Dict) -> int:
     r = rep["replay"]
+    if r.get("mode") == "readings":
+        failed = falsify_readings(ctx, r["case"])
+        print("REPRODUCED" if failed else "NOT-REPRODUCED")
+        return 1 if failed else 0
     ops = [tuple(o) for o in r["ops"]]
     rows = r["init"] + [x for o in ops if o[0] == "append" for x in o[1]]
     failed = falsify(ctx, r["cfg"], rows, r["init"], ops, {})
